@@ -59,6 +59,7 @@ class Gen:
         self.funs = {}		# name -> (arity, python callable)
         self.pending = []	# names whose ill-typed definition was rejected: define them properly later
         self.pending_dom = []
+        self.newtypes = ["Float", "DoubleFloat"] if dialect != "libaldor" else []	# types nothing has mentioned yet
         self.forms = []
 
     def fresh(self, p):
@@ -272,6 +273,8 @@ class Gen:
             opts.append("bad-overload")
         if self.d.name != "libaldor":
             opts.append("bad-domain")
+        if self.newtypes:
+            opts.append("bad-first-type")
         # (a second definition with the signature of an existing function is NOT in the
         # catalogue: the loop answers it with an interactive "Redefine? (y/n)" question that
         # eats the following input - a dialogue, not a rejection, and outside the property)
@@ -305,6 +308,12 @@ class Gen:
             text = ("%s: with { mk%s: %s -> %%; val%s: %% -> %s } == add {\n   Rep ==> %s;\n   mk%s(n: %s): %% == per n;\n"
                     "   val%s(x: %%): %s == \"oops\";\n}" % (nm, nm, SI, nm, SI, SI, nm, SI, nm, SI))
             return self.add(Form("bad:" + k, text, good=False))
+        if k == "bad-first-type":
+            # the rejected form is the first ever to mention a library type; a later good
+            # form imports and uses that type
+            t = self.newtypes.pop(0)
+            self.usetypes = getattr(self, "usetypes", []) + [t]
+            return self.add(Form("bad:" + k, "%s(x: %s): %s == x + 1;" % (self.fresh("g"), t, SI), good=False))
         if k == "bad-import":
             return self.add(Form("bad:" + k, "import from %s;" % self.fresh("NoSuchDomain"), good=False))
         if k == "bad-block":
@@ -366,6 +375,15 @@ class Gen:
                 last_ctl = False
                 if self.pending and r.chance(3, 4):
                     self.g_fun(self.pending.pop(0))
+                    continue
+                if getattr(self, "usetypes", None) and r.chance(1, 2):
+                    t = self.usetypes.pop(0)
+                    nm = self.fresh("y")
+                    self.add(Form("import", "import from %s;" % t))
+                    self.add(Form("var", "%s: %s := 2.5;" % (nm, t)))
+                    self.mark += 1
+                    m = "@@%d:" % self.mark
+                    self.add(Form("out", '%s << "%s" << %s << newline;' % (self.d.out, m, nm), marker=m, value=m + "2.5"))
                     continue
                 if self.pending_dom and r.chance(3, 4):
                     self.g_domain(self.pending_dom.pop(0))
